@@ -45,6 +45,31 @@ def shapes(model, opts):
     return cache[key]
 
 
+def dialect_list(chk, names=('smiV2', 'smiV1', 'smiV1Relaxed')):
+    """[(name, options)]: the shipped dialects named; in the thorough tier followed by every other buildable subset
+    of the relaxation options (parserFactory(**options) accepts any of them), named '{opt,opt,...}'."""
+    model = chk.model
+    ship = shipped_dialects(model)
+    out = [(n, ship[n]) for n in names]
+    if getattr(chk, 'tier', 'quick') != 'thorough':
+        return out
+    cache = model.__dict__.setdefault('_all_subsets', None)
+    if cache is None:
+        cache = []
+        opts = sorted(all_option_names(model))
+        have = set(tuple(sorted(k for k, v in o.items() if v)) for o in ship.values())
+        for k in range(len(opts) + 1):
+            for sub in itertools.combinations(opts, k):
+                if sub in have:
+                    continue
+                o = dict((x, True) for x in sub)
+                if dialect(model, o).buildable:
+                    cache.append(('{%s}' % ','.join(sub), o))
+        model.__dict__['_all_subsets'] = cache
+        chk.note('thorough: %d further buildable option subsets analysed besides the shipped dialects' % len(cache))
+    return out + cache
+
+
 def reduce_candidates(d, state, tok):
     """productions with a complete item in `state` whose LALR lookahead set holds tok (the lookahead sets are the
     ones ply attached to the grammar's LR items while generating the table)"""
